@@ -285,7 +285,7 @@ func Search(t *testing.T, e *Engine) {
 	failed := false
 	prop := func(rt *rapid.T) {
 		if !failed && (time.Since(start).Seconds() > budget || out.Runs >= maxRuns) {
-			rt.Skip("budget exhausted")
+			return // budget exhausted: remaining checks pass trivially
 		}
 		plan := e.Gen(rt, tier)
 		res := RunPlan(t, e, plan)
@@ -346,6 +346,11 @@ func Replay(t *testing.T, e *Engine, path string) {
 	if res.Panic != "" {
 		fmt.Println("xsim: infrastructure panic:", res.Panic)
 		os.Exit(2)
+	}
+	if os.Getenv("XSIM_VERBOSE") != "" {
+		for _, l := range res.Log {
+			fmt.Println("LOG", l)
+		}
 	}
 	if res.V == nil {
 		fmt.Printf("REPLAY property=%s result=no-violation (recorded: %s)\n", e.Prop, rf.Violation.Fingerprint())
